@@ -93,6 +93,7 @@ func C01(c *Case) *Result {
 	res.feat("shape:" + rec.Shape)
 	if cfg.Hint == "smaller" || cfg.Hint == "larger" {
 		res.feat("hint:" + cfg.Hint)
+		res.Faults["hint."+cfg.Hint]++
 	}
 
 	stream, wo, ro := roundTripUnderSim(c, res, cfg, data, pieces, sizes)
@@ -177,6 +178,7 @@ func C04(c *Case) *Result {
 	res.Render["data"] = rec
 	if cfg.Hint == "smaller" || cfg.Hint == "larger" {
 		res.feat("hint:" + cfg.Hint)
+		res.Faults["hint."+cfg.Hint]++
 	}
 
 	// reference run: jobs 1, one Write, no simulation
